@@ -38,7 +38,7 @@ KINDS = ["grid_gdf", "grid_poly", "grid_line", "data_gdf", "data_poly"]
 
 def cases(tier, seed):
     rng = np.random.default_rng([seed, 1515])
-    n = 100 if tier == "quick" else 2400
+    n = 100 if tier == "quick" else 12000
     for i in range(n):
         d = gen.random_mesh(rng, 40 if tier == "quick" else 120)
         if i % 3 == 0 and d["family"] not in ("latlon_patch", "latlon_global"):
